@@ -44,7 +44,7 @@ class Profile:
         self.bad_version = 0.25
         self.unknown_node = 0.2
         self.restore = 0.3
-        self.p_reconnect = 0.5
+        self.p_reconnect = 0.03
         self.__dict__.update(kw)
 
 
@@ -147,19 +147,29 @@ def gen_history(rng, pr: Profile) -> list[tuple]:
                     ops.append(("add_child", n, c, rng.choice([0, 3, 6])))
                     if rng.random() < 0.5:
                         ops.append(("set_value", n, c, rng.choice(pr.vtypes), rng.choice(["1", "", "20.5"])))
+    last_set: dict = {}
     for _ in range(rng.randint(1, pr.max_len)):
         x = rng.random()
         if x < pr.p_send:
             f, buffered = gen_send(rng, pr)
             faults = tuple(rng.random() < 0.5 for _ in range(2)) if rng.random() < pr.p_fault else ()
             ops.append(("send", f, buffered, faults))
-        elif x < pr.p_send + pr.p_manip and rng.random() < pr.p_reconnect:
-            ops.append(("reconnect",))
         elif x < pr.p_send + pr.p_manip:
             n = rng.choice(pr.nodes)
             ops.append((rng.choice(["set_reboot", "set_sleeping"]), n, rng.random() < 0.7))
+        elif x < pr.p_send + pr.p_manip + pr.p_reconnect:
+            # the application leaves the session and enters it again on the same Gateway object
+            ops.append(("reconnect",))
         else:
             kind, line = gen_line(rng, pr)
+            if kind == "set":
+                # nodes often report the value they reported before
+                f = line.split(";", 5)
+                key = (f[0], f[1], f[4])
+                if key in last_set and rng.random() < 0.3:
+                    f[5] = last_set[key]
+                    line = ";".join(f)
+                last_set[key] = f[5]
             faults = tuple(rng.random() < 0.4 for _ in range(4)) if rng.random() < pr.p_fault else ()
             ops.append(("recv", line, faults))
     return ops
